@@ -6,7 +6,7 @@
    the prefixes of src.  [key_inj sname S]: session names are distinct (they are
    the keys of the map the sessions live in). *)
 From Coq Require Import String NArith Bool List Permutation Sorted.
-From Verif Require Import Model.FrrSpec Model.FrrK8s Proofs.FrrSortP Proofs.FrrK8sP Proofs.FrrK8sEqP.
+From Verif Require Import Model.FrrSpec Model.FrrK8s Proofs.FrrSortP Proofs.FrrK8sP Proofs.FrrK8sEqP Model.FrrMgr Proofs.FrrMgrP.
 Import ListNotations.
 Open Scope string_scope.
 
@@ -147,6 +147,32 @@ Proof. exact k8s_eq_frr. Qed.
 (* when FRR mode accepts the session set, every prefix has one local preference *)
 Theorem C15_render_lp_consistent : forall S c s, wf_sessions S -> render S = Some c -> In s S -> lp_consistent s.
 Proof. exact render_lp_consistent. Qed.
+
+(* ===== the session manager (Model/FrrMgr.v), frr-k8s mode: histories ===== *)
+Theorem C15_mgr_history_in_sync : forall node ops st oks last,
+  hist_ok (gen_k8s node) false (fun _ => True) minit ops -> mrun (gen_k8s node) false minit None ops = (st, oks, last) ->
+  cfg_of (gen_k8s node) st <> None /\ ((last = None /\ st = minit) \/ last = cfg_of (gen_k8s node) st).
+Proof. exact k8s_history_in_sync. Qed.
+
+Theorem C15_mgr_history_independent : forall node ops1 ops2 st1 st2 oks1 oks2 last1 last2,
+  hist_ok (gen_k8s node) false (fun _ => True) minit ops1 -> hist_ok (gen_k8s node) false (fun _ => True) minit ops2 ->
+  mrun (gen_k8s node) false minit None ops1 = (st1, oks1, last1) -> mrun (gen_k8s node) false minit None ops2 = (st2, oks2, last2) ->
+  Permutation (ms_sessions st1) (ms_sessions st2) -> ms_bfd st1 = ms_bfd st2 -> ms_extra st1 = ms_extra st2 ->
+  rkey_fields (sessions_of st1) -> pfx_texts_inj (sessions_of st1) -> kinv (ms_sessions st1) ->
+  last1 <> None -> last2 <> None -> last1 = last2.
+Proof. exact k8s_history_independent. Qed.
+
+Theorem C15_mgr_set_refused : forall node st p advs st' c,
+  mstep (gen_k8s node) false st (MSet p advs) = (st', false, c) -> st' = st /\ c = None.
+Proof. intro node. exact (set_refused (gen_k8s node) false). Qed.
+
+Theorem C15_mgr_set_invalid_refused : forall node st p advs,
+  forallb valid_adv advs = false -> mstep (gen_k8s node) false st (MSet p advs) = (st, false, None).
+Proof. intro node. exact (set_invalid_refused (gen_k8s node) false). Qed.
+
+(* updateConfig succeeds iff no session carries both a password and a secret reference *)
+Theorem C15_k8s_render_some : forall node S, (forall s, In s S -> k_neighbor s <> None) -> k8s_render node S <> None.
+Proof. exact k8s_render_some. Qed.
 
 (* non-vacuity *)
 Example C15_nonvacuous :
